@@ -4,6 +4,7 @@ import (
 	"strconv"
 
 	"github.com/NethermindEth/juno/core"
+	"github.com/cockroachdb/pebble/v2"
 
 	"jsim/chaingen"
 	"jsim/sim"
@@ -120,10 +121,10 @@ func c09Long(c *sim.Ctx) {
 	t := c.T
 	c.Probe("long_run")
 	usePebble := t.Draw("pebble", 2) == 1
-	// Long runs use the new state backend only: the legacy backend works through indexed batches,
-	// which cost a full database copy per iterator on the memory DB and a scan over every obsolete
-	// version of hot keys in Pebble's (never flushed) memtable. The event index code is shared.
-	newState := true
+	// The legacy backend works through indexed batches: on the memory DB every iterator costs a full
+	// database copy (hopeless for 8192+ blocks), on Pebble a read scans every obsolete version of
+	// hot keys in the memtable - affordable only if the memtable is flushed periodically (below).
+	newState := !usePebble || t.Draw("newstate", 2) == 1
 	n := OpenNode(c, NewStore(c, usePebble), newState, "L")
 	defer func() { n.St.Close() }()
 	d := newChainDriver(c)
@@ -144,6 +145,11 @@ func c09Long(c *sim.Ctx) {
 			c.Fail("valid_block_rejected", "store", "[%s] valid block %d rejected: %v", backendName(n), b.B.Number, err)
 		}
 		m.Chain = append(m.Chain, b)
+		if usePebble && len(m.Chain)%256 == 0 {
+			if pdb, ok := n.St.kv.Impl().(*pebble.DB); ok {
+				c.Must(pdb.Flush(), "pebble flush")
+			}
+		}
 	}
 	revert := func() {
 		h := m.Head()
